@@ -2,6 +2,9 @@
 // E1: explicit-state BFS over the real bluetoe::server< shared_write_queue< QUEUE >, ... > with three connection objects.
 // State = byte image of server + 3 connections + bound values + handler value + reference queue.
 //
+// Attributes: two plain read/write values, a read-only value, a value that requires encryption, an invalid handle, a
+// value behind a write handler, a value behind a write handler that requires encryption and the CCCD of a notifying
+// value that requires encryption (every kind of writable attribute has its own access function in bluetoe).
 // Events per connection: Prepare Write( attribute x offset class x length class ), Execute Write( 0 | 1 | 2 ),
 // Write Request, client_disconnected(), toggle link encryption.
 //
@@ -67,7 +70,30 @@ std::uint8_t hv_read( std::size_t offset, std::size_t read_size, std::uint8_t* o
     return bluetoe::error_codes::success;
 }
 
-// handles: 1 service; 2/3 rw1; 4/5 rw2; 6/7 read only; 8/9 requires_encryption; 10/11 handler value
+// the same kind of value, but the characteristic requires encryption
+HandlerValue hv2;
+std::uint8_t v_enc_notify[ 2 ];
+
+std::uint8_t hv2_write( std::size_t offset, std::size_t write_size, const std::uint8_t* value )
+{
+    ++hv2.write_calls;
+    if ( offset > sizeof hv2.buf ) return bluetoe::error_codes::invalid_offset;
+    if ( offset + write_size > sizeof hv2.buf ) return bluetoe::error_codes::invalid_attribute_value_length;
+    for ( std::size_t i = 0; i != write_size; ++i ) hv2.buf[ offset + i ] = value[ i ];
+    hv2.len = std::uint8_t( offset + write_size );
+    return bluetoe::error_codes::success;
+}
+
+std::uint8_t hv2_read( std::size_t offset, std::size_t read_size, std::uint8_t* out_buffer, std::size_t& out_size )
+{
+    if ( offset > hv2.len ) return bluetoe::error_codes::invalid_offset;
+    out_size = std::min< std::size_t >( read_size, hv2.len - offset );
+    for ( std::size_t i = 0; i != out_size; ++i ) out_buffer[ i ] = hv2.buf[ offset + i ];
+    return bluetoe::error_codes::success;
+}
+
+// handles: 1 service; 2/3 rw1; 4/5 rw2; 6/7 read only; 8/9 requires_encryption; 10/11 handler value;
+//          12/13 handler value that requires encryption; 14/15/16 notifying value that requires encryption and its CCCD
 using server_t = bluetoe::server<
     bluetoe::shared_write_queue< QUEUE >,
     bluetoe::no_gap_service_for_gatt_servers,
@@ -77,30 +103,36 @@ using server_t = bluetoe::server<
         bluetoe::characteristic< bluetoe::characteristic_uuid16< 0xAA02 >, bluetoe::bind_characteristic_value< decltype( v_rw2 ), &v_rw2 > >,
         bluetoe::characteristic< bluetoe::characteristic_uuid16< 0xAA03 >, bluetoe::bind_characteristic_value< decltype( v_ro ), &v_ro >, bluetoe::no_write_access >,
         bluetoe::characteristic< bluetoe::characteristic_uuid16< 0xAA04 >, bluetoe::bind_characteristic_value< decltype( v_enc ), &v_enc >, bluetoe::requires_encryption >,
-        bluetoe::characteristic< bluetoe::characteristic_uuid16< 0xAA05 >, bluetoe::free_write_blob_handler< &hv_write >, bluetoe::free_read_blob_handler< &hv_read > >
+        bluetoe::characteristic< bluetoe::characteristic_uuid16< 0xAA05 >, bluetoe::free_write_blob_handler< &hv_write >, bluetoe::free_read_blob_handler< &hv_read > >,
+        bluetoe::characteristic< bluetoe::characteristic_uuid16< 0xAA06 >, bluetoe::free_write_blob_handler< &hv2_write >, bluetoe::free_read_blob_handler< &hv2_read >, bluetoe::requires_encryption >,
+        bluetoe::characteristic< bluetoe::characteristic_uuid16< 0xAA07 >, bluetoe::bind_characteristic_value< decltype( v_enc_notify ), &v_enc_notify >, bluetoe::notify, bluetoe::requires_encryption >
     >
 >;
 using conn_t = server_t::channel_data_t< bluetoe::details::link_state >;
 
-enum AttrKind { A_RW1, A_RW2, A_RO, A_ENC, A_INVALID, A_HANDLER, A_COUNT };
+enum AttrKind { A_RW1, A_RW2, A_RO, A_ENC, A_INVALID, A_HANDLER, A_ENC_HANDLER, A_ENC_CCCD, A_COUNT };
+inline bool needs_encryption( int a ) { return a == A_ENC || a == A_ENC_HANDLER || a == A_ENC_CCCD; }
 struct Attr { std::uint16_t handle; std::uint8_t size; const char* name; };
 const Attr attrs[ A_COUNT ] = {
     { 3, sizeof v_rw1, "rw-value" }, { 5, sizeof v_rw2, "second-rw-value" }, { 7, sizeof v_ro, "read-only-value" },
-    { 9, sizeof v_enc, "requires_encryption-value" }, { 0x0040, 2, "invalid-handle" }, { 11, sizeof hv.buf, "handler-value" } };
+    { 9, sizeof v_enc, "requires_encryption-value" }, { 0x0040, 2, "invalid-handle" }, { 11, sizeof hv.buf, "handler-value" },
+    { 13, sizeof hv2.buf, "requires_encryption-handler-value" }, { 16, 2, "requires_encryption-cccd" } };
 
 struct Arena
 {
-    std::uint8_t rw1[ 20 ], rw2[ 2 ], ro[ 2 ], enc[ 4 ], hbuf[ 8 ], hlen;
+    std::uint8_t rw1[ 20 ], rw2[ 2 ], ro[ 2 ], enc[ 4 ], hbuf[ 8 ], hlen, h2buf[ 8 ], h2len, encn[ 2 ];
+    std::uint8_t cccd[ 3 ];     // CCCD flags of the protected notifying value, per connection
     bool operator==( const Arena& o ) const { return memcmp( this, &o, sizeof *this ) == 0; }
     bool operator!=( const Arena& o ) const { return !( *this == o ); }
-    std::uint8_t* mem( int a ) { return a == A_RW1 ? rw1 : a == A_RW2 ? rw2 : a == A_RO ? ro : a == A_ENC ? enc : a == A_HANDLER ? hbuf : nullptr; }
+    std::uint8_t* mem( int a ) { return a == A_RW1 ? rw1 : a == A_RW2 ? rw2 : a == A_RO ? ro : a == A_ENC ? enc : a == A_HANDLER ? hbuf : a == A_ENC_HANDLER ? h2buf : nullptr; }
 };
 
-Arena arena()
+Arena arena_values()
 {
     Arena a; memset( &a, 0, sizeof a );
     memcpy( a.rw1, v_rw1, sizeof v_rw1 ); memcpy( a.rw2, v_rw2, sizeof v_rw2 ); memcpy( a.ro, v_ro, sizeof v_ro );
     memcpy( a.enc, v_enc, sizeof v_enc ); memcpy( a.hbuf, hv.buf, sizeof hv.buf ); a.hlen = hv.len;
+    memcpy( a.h2buf, hv2.buf, sizeof hv2.buf ); a.h2len = hv2.len; memcpy( a.encn, v_enc_notify, sizeof v_enc_notify );
     return a;
 }
 
@@ -110,7 +142,10 @@ const char* changed_attr( const Arena& a, const Arena& b )
     if ( memcmp( a.rw2, b.rw2, sizeof a.rw2 ) ) return attrs[ A_RW2 ].name;
     if ( memcmp( a.ro, b.ro, sizeof a.ro ) ) return attrs[ A_RO ].name;
     if ( memcmp( a.enc, b.enc, sizeof a.enc ) ) return attrs[ A_ENC ].name;
-    return attrs[ A_HANDLER ].name;
+    if ( memcmp( a.hbuf, b.hbuf, sizeof a.hbuf ) || a.hlen != b.hlen ) return attrs[ A_HANDLER ].name;
+    if ( memcmp( a.h2buf, b.h2buf, sizeof a.h2buf ) || a.h2len != b.h2len ) return attrs[ A_ENC_HANDLER ].name;
+    if ( memcmp( a.cccd, b.cccd, sizeof a.cccd ) ) return attrs[ A_ENC_CCCD ].name;
+    return "requires_encryption-notify-value";
 }
 
 // ---- events ---------------------------------------------------------------------------------------------------------
@@ -153,7 +188,7 @@ struct World
     {
         r.add( srv.raw, sizeof srv.raw );
         for ( auto& c : con ) r.add( c.raw, sizeof c.raw );
-        r.add( v_rw1 ); r.add( v_rw2 ); r.add( v_ro ); r.add( v_enc ); r.add( hv ); r.add( ref );
+        r.add( v_rw1 ); r.add( v_rw2 ); r.add( v_ro ); r.add( v_enc ); r.add( hv ); r.add( hv2 ); r.add( v_enc_notify ); r.add( ref );
     }
 
     void init()
@@ -166,8 +201,19 @@ struct World
         for ( std::size_t i = 0; i != sizeof v_enc; ++i ) v_enc[ i ] = std::uint8_t( 0x51 + i );
         memset( &hv, 0, sizeof hv );
         hv.buf[ 0 ] = 0x61; hv.buf[ 1 ] = 0x62; hv.buf[ 2 ] = 0x63; hv.len = 3;
+        memset( &hv2, 0, sizeof hv2 );
+        hv2.buf[ 0 ] = 0x71; hv2.buf[ 1 ] = 0x72; hv2.len = 2;
+        v_enc_notify[ 0 ] = 0x81; v_enc_notify[ 1 ] = 0x82;
         memset( &ref, 0, sizeof ref );
         ref.owner = -1;
+    }
+
+    // values + the CCCD flags stored in the three connection objects
+    Arena arena()
+    {
+        Arena a = arena_values();
+        for ( int i = 0; i != NCONN; ++i ) a.cccd[ i ] = std::uint8_t( con[ i ]->client_configurations().flags( 0 ) );
+        return a;
     }
 
     int num_events() const { return NCONN * EV_PER_CONN; }
@@ -179,7 +225,7 @@ struct World
         const int a = idx / 16, o = ( idx / 4 ) % 4, l = idx % 4;
         if ( l != 1 ) return false;
         if ( a == A_RW1 ) return o == 0 || o == 1 || o == 2;
-        if ( a == A_RW2 || a == A_ENC || a == A_RO ) return o == 0;
+        if ( a == A_RW2 || a == A_ENC || a == A_RO || a == A_HANDLER || a == A_ENC_HANDLER || a == A_ENC_CCCD ) return o == 0;
         return false;
     }
 
@@ -300,7 +346,7 @@ struct World
         const bool write_refused = wr.is_error() && permission_code( wr.code() );
 
         const Arena before = arena();
-        const std::uint32_t calls_before = hv.write_calls;
+        const std::uint32_t calls_before = hv.write_calls + hv2.write_calls;
         const Resp r = att( c, req, req_size );
         const bool accepted = r.n >= 1 && r.d[ 0 ] == 0x17;
         const int rel = owner_relation( c );
@@ -314,10 +360,10 @@ struct World
         const Arena after = arena();
         if ( after != before )
         {
-            if ( hv.write_calls != calls_before )
+            if ( hv.write_calls + hv2.write_calls != calls_before )
                 ctx.fail( "prepare-changes-value:write-handler-called-with-zero-length",
                           mc::fmt( "Prepare Write to the handler based value called the write handler with offset 0 and size 0: value length %d -> %d (%s -> %s)",
-                                   int( before.hlen ), int( after.hlen ), mc::hex( req, req_size ).c_str(), hex_resp( r ).c_str() ) );
+                                   int( a == A_HANDLER ? before.hlen : before.h2len ), int( a == A_HANDLER ? after.hlen : after.h2len ), mc::hex( req, req_size ).c_str(), hex_resp( r ).c_str() ) );
             else
                 ctx.fail( mc::fmt( "prepare-changes-value:%s-modified", changed_attr( before, after ) ),
                           mc::fmt( "Prepare Write %s -> %s modified the %s", mc::hex( req, req_size ).c_str(), hex_resp( r ).c_str(), changed_attr( before, after ) ) );
@@ -398,11 +444,17 @@ struct World
     {
         const Elem& e = ref.q[ k ];
         const Attr& at = attrs[ e.attr ];
-        if ( e.attr == A_ENC && !ref.enc[ c ] ) return 0xff;
+        if ( needs_encryption( e.attr ) && !ref.enc[ c ] ) return 0xff;
         if ( e.off > at.size ) return 0x07;
         if ( e.off + e.len > at.size ) return 0x0d;
+        if ( e.attr == A_ENC_CCCD )
+        {   // only a write at offset 0 has an effect; the two configuration bits are in the first octet
+            if ( e.off == 0 && e.len != 0 ) v.cccd[ c ] = data_byte( c, k, 0 ) & 3;
+            return 0;
+        }
         for ( int i = 0; i != e.len; ++i ) v.mem( e.attr )[ e.off + i ] = data_byte( c, k, i );
         if ( e.attr == A_HANDLER ) v.hlen = std::uint8_t( e.off + e.len );
+        if ( e.attr == A_ENC_HANDLER ) v.h2len = std::uint8_t( e.off + e.len );
         return 0;
     }
 
@@ -518,7 +570,8 @@ struct World
         case EV_DISCONNECT:
         {
             kind = "disconnect";
-            const Arena before = arena();
+            Arena before = arena();
+            before.cccd[ c ] = 0;               // the subscriptions of the connection end with the connection
             srv->client_disconnected( con[ c ].get() );
             con[ c ].construct();               // the next connection uses a fresh connection object at the same address
             cls( ctx, 0x7000 + owner_relation( c ) * 2 + ( ref.n ? 1 : 0 ), [&]{ return mc::fmt( "disconnect:%s:%s", relation_name( owner_relation( c ) ), ref.n ? "elements-queued" : "queue-empty" ); } );
@@ -578,7 +631,7 @@ int main( int argc, char** argv )
     w.rep = &rep;
     mc::BfsOptions o;
     o.max_depth = int( a.num( "depth", LITE ? ( a.thorough() ? 10 : 8 ) : ( a.thorough() ? 7 : 5 ) ) );
-    o.max_states = 3000000;
+    o.max_states = a.thorough() ? 7000000 : 3000000;
     mc::Bfs< World > bfs( w, rep, a, o );
     if ( !a.replay.empty() ) { w.replaying = true; return bfs.replay_file( mc::read_replay( a.replay ) ); }
     {   // probes on the initial state
@@ -591,7 +644,7 @@ int main( int argc, char** argv )
     rep.counters[ "steps_without_state_change" ] = w.noop_steps;
     rep.counters[ "state_bytes" ] = bfs.isz;
     rep.counters[ "events" ] = std::uint64_t( w.num_events() );
-    rep.notes[ "alphabet" ] = LITE ? "reduced alphabet (11 events per connection)" : "full alphabet (102 events per connection)";
+    rep.notes[ "alphabet" ] = LITE ? "reduced alphabet (14 events per connection)" : "full alphabet (134 events per connection)";
     rep.write( a );
     return 0;
 }
